@@ -25,7 +25,32 @@ def run(ctx):
     ctx.guarded("R-C15-window", window, ctx, prog)
     ctx.guarded("R-C15-expiry", reads_do_not_age, ctx, prog)
     ctx.guarded("R-C15-oneshot", unsubscribed_means_new_again, ctx, prog)
+    ctx.guarded("R-C15-match", scan_is_complete, ctx, prog)
     ctx.guarded("R-C15-match", matchroles.check, ctx, "R-C15-match", prog, r"^router::logs::DataLog::read_retained_messages$", "retained replay for a new subscription")
+
+
+def scan_is_complete(ctx, prog):
+    """read_retained_messages walks the broker-wide retained table; only the topic match may leave an entry out.
+    A take/skip/step_by placed on the table's iterator (before the match) bounds the whole table in hash order, not
+    the matching entries: with more retained topics than the bound a new subscription misses matching ones."""
+    from .c02 import src_chains
+    rule = "R-C15-match"
+    parent = prog.one(r"^router::logs::DataLog::read_retained_messages$")
+    narrow = re.compile(r"Iterator::(take|skip|take_while|skip_while|step_by|nth|last|find)$")
+    n = 0
+    for bb, t in parent.calls():
+        if parent.is_cleanup(bb) or not narrow.search(callee_path(t)):
+            continue
+        chains = list(src_chains(provenance(parent, t["args"][0], through_calls=[r"."])))
+        for chain, leaf in chains:
+            fs = [x.split(".")[-1] for x in (getattr(leaf, "fields", None) or [])]
+            if "retained_publishes" in fs and not any(re.search(r"Iterator::(filter|filter_map)$", c) for c in chain):
+                n += 1
+                ctx.violation(rule, parent.id, "retained table bounded before the match",
+                              "read_retained_messages applies %s to the iterator over the whole retained table before the topic match: entries beyond the bound (in hash order) are never considered, a new subscription misses matching retained messages" % callee_path(t).split("::")[-1],
+                              site=parent.loc(t.get("sp")))
+    if not n:
+        ctx.ok(rule, parent.id, "the scan of the retained table is narrowed by the topic match only", site=parent.fn_loc())
 
 
 def window(ctx, prog):
